@@ -11,6 +11,12 @@ import (
 	"time"
 )
 
+// The scheduler's own state lives in fixed arrays that are touched only from
+// //go:norace functions, and its own synchronisation (mutex, resume channels,
+// synctest.Wait) happens under raceDisable(): in a race-detector build the
+// detector then sees exactly the synchronisation of the code under test, on a
+// serial and replayable schedule.
+
 // LockState is the simulator's view of one mutex / RW mutex.
 type LockState struct {
 	Name    string
@@ -18,7 +24,10 @@ type LockState struct {
 	readers int
 }
 
+const maxTasks = 96
+
 type task struct {
+	used   bool
 	id     int
 	name   string
 	class  int // index into SchedConfig.Weights
@@ -53,8 +62,8 @@ type SchedConfig struct {
 
 type scheduler struct {
 	cfg      SchedConfig
-	tasks    []*task
-	byGid    map[int64]*task
+	tasks    [maxTasks]task
+	n        int
 	steps    int
 	advances int
 	simTime  time.Duration
@@ -77,7 +86,7 @@ func (w *World) EnableScheduler(cfg SchedConfig) {
 	if cfg.MaxSteps == 0 {
 		cfg.MaxSteps = 200000
 	}
-	w.sched = &scheduler{cfg: cfg, byGid: map[int64]*task{}}
+	w.sched = &scheduler{cfg: cfg}
 }
 
 func (w *World) Scheduled() bool { return w.sched != nil }
@@ -93,19 +102,26 @@ func goid() int64 {
 	return id
 }
 
+//go:norace
+func (s *scheduler) byGid(gid int64) *task {
+	for i := 0; i < s.n; i++ {
+		t := &s.tasks[i]
+		if t.used && !t.done && t.gid == gid {
+			return t
+		}
+	}
+	return nil
+}
+
+//go:norace
 func (w *World) currentTaskLocked() (int, string) {
 	if w.sched == nil {
 		return 0, ""
 	}
-	if t := w.sched.byGid[goid()]; t != nil {
+	if t := w.sched.byGid(goid()); t != nil {
 		return t.id, t.name
 	}
 	return 0, ""
-}
-
-func (w *World) currentTaskIDLocked() int {
-	id, _ := w.currentTaskLocked()
-	return id
 }
 
 func classOf(name string, client bool) int {
@@ -135,36 +151,65 @@ func (w *World) GoClient(name string, f func()) {
 	w.spawn(name, f, true)
 }
 
+//go:norace
+func (w *World) newTask(name string, client bool) *task {
+	w.lock()
+	defer w.unlock()
+	s := w.sched
+	if s.n >= maxTasks {
+		panic("simrt: too many tasks")
+	}
+	t := &s.tasks[s.n]
+	s.n++
+	*t = task{used: true, id: s.n, name: name, client: client, class: classOf(name, client)}
+	return t
+}
+
+//go:norace
+func (w *World) taskStart(t *task, gid int64) {
+	w.lock()
+	t.gid = gid
+	t.kind = "start"
+	t.parked = true
+	w.unlock()
+	raceDisable()
+	<-t.resume
+	raceEnable()
+}
+
+//go:norace
+func (w *World) taskDone(t *task) {
+	w.lock()
+	t.done = true
+	w.unlock()
+}
+
+//go:norace
+func (t *task) isKilled() bool { return t.killed }
+
+//go:norace
+func (t *task) makeChan() {
+	raceDisable()
+	t.resume = make(chan struct{})
+	raceEnable()
+}
+
 func (w *World) spawn(name string, f func(), client bool) {
 	if w.sched == nil {
 		go func() {
-			defer w.recoverTask(nil)
+			defer w.recoverTask()
 			f()
 		}()
 		return
 	}
-	w.mu.Lock()
-	s := w.sched
-	t := &task{id: len(s.tasks) + 1, name: name, client: client, resume: make(chan struct{}), class: classOf(name, client)}
-	s.tasks = append(s.tasks, t)
-	w.mu.Unlock()
+	t := w.newTask(name, client)
+	t.makeChan()
+	// the go statement itself stays visible to the race detector: parent-to-child is a genuine happens-before edge
 	go func() {
-		gid := goid()
-		w.mu.Lock()
-		t.gid = gid
-		s.byGid[gid] = t
-		t.kind = "start"
-		t.parked = true
-		w.mu.Unlock()
-		defer func() {
-			w.mu.Lock()
-			t.done = true
-			delete(s.byGid, gid)
-			w.mu.Unlock()
-		}()
-		defer w.recoverTask(t)
-		<-t.resume
-		if t.killed {
+		defer w.taskDone(t)
+		defer w.recoverTask()
+		w.taskStart(t, goid())
+		if t.isKilled() {
 			panic(killSentinel{})
 		}
 		f()
@@ -174,18 +219,16 @@ func (w *World) spawn(name string, f func(), client bool) {
 type killSentinel struct{}
 
 // recoverTask turns panics of a task into recorded process-stopped events.
-func (w *World) recoverTask(t *task) {
+func (w *World) recoverTask() {
 	r := recover()
 	if r == nil {
 		return
 	}
-	switch v := r.(type) {
+	switch r.(type) {
 	case killSentinel:
 		return
 	case StopPanic:
-		// already recorded by simlog
-		_ = v
-		return
+		return // already recorded by simlog
 	default:
 		if w.Killed() {
 			return
@@ -195,9 +238,9 @@ func (w *World) recoverTask(t *task) {
 }
 
 // Killed reports whether the run was torn down.
+//
+//go:norace
 func (w *World) Killed() bool {
-	w.mu.Lock()
-	defer w.mu.Unlock()
 	return w.sched != nil && w.sched.killed
 }
 
@@ -211,25 +254,28 @@ func Yield(kind string) {
 	w.yield(kind, nil, false)
 }
 
+//go:norace
 func (w *World) yield(kind string, ls *LockState, write bool) bool {
 	s := w.sched
 	gid := goid()
-	w.mu.Lock()
-	t := s.byGid[gid]
+	w.lock()
+	t := s.byGid(gid)
 	if t == nil {
-		w.mu.Unlock()
+		w.unlock()
 		return false
 	}
 	if s.killed {
-		w.mu.Unlock()
+		w.unlock()
 		panic(killSentinel{})
 	}
 	t.kind = kind
 	t.want = ls
 	t.wantW = write
 	t.parked = true
-	w.mu.Unlock()
+	w.unlock()
+	raceDisable()
 	<-t.resume
+	raceEnable()
 	if t.killed {
 		panic(killSentinel{})
 	}
@@ -237,6 +283,8 @@ func (w *World) yield(kind string, ls *LockState, write bool) bool {
 }
 
 // LockAcquire is called by simsync before taking the real lock.
+//
+//go:norace
 func LockAcquire(ls *LockState, write bool) {
 	w := W()
 	if w == nil || w.sched == nil {
@@ -246,8 +294,8 @@ func LockAcquire(ls *LockState, write bool) {
 		return // the scheduler granted it and updated ls
 	}
 	// not a task (root goroutine running a single-threaded phase)
-	w.mu.Lock()
-	defer w.mu.Unlock()
+	w.lock()
+	defer w.unlock()
 	if !grantable(ls, write) {
 		panic("simrt: non-task goroutine would block on " + ls.Name)
 	}
@@ -255,20 +303,23 @@ func LockAcquire(ls *LockState, write bool) {
 }
 
 // LockRelease is called by simsync after releasing the real lock.
+//
+//go:norace
 func LockRelease(ls *LockState, write bool) {
 	w := W()
 	if w == nil || w.sched == nil {
 		return
 	}
-	w.mu.Lock()
-	defer w.mu.Unlock()
+	w.lock()
 	if write {
 		ls.writer = false
 	} else {
 		ls.readers--
 	}
+	w.unlock()
 }
 
+//go:norace
 func grantable(ls *LockState, write bool) bool {
 	if ls == nil {
 		return true
@@ -279,6 +330,7 @@ func grantable(ls *LockState, write bool) bool {
 	return !ls.writer
 }
 
+//go:norace
 func grant(ls *LockState, write bool) {
 	if write {
 		ls.writer = true
@@ -294,19 +346,27 @@ type RunResult struct {
 	SimTime  time.Duration
 	PickHash uint64
 	Tasks    int
-	WaitFor  []string // on deadlock / budget: what each live task waits for
+	WaitFor  []string // on deadlock / budget / leak: what each live task waits for
 }
 
 // RunScheduler drives the tasks until every client task has finished.
 // Must be called from the root goroutine of the bubble.
+//
+//go:norace
 func (w *World) RunScheduler() (RunResult, error) {
+	// the root never takes part in the program's own synchronisation: keep all of its
+	// synchronisation events (synctest.Wait, resume channels) invisible to the race detector
+	raceDisable()
+	defer raceEnable()
 	s := w.sched
+	var elig [maxTasks]*task
 	for {
 		synctest.Wait()
-		w.mu.Lock()
-		var elig []*task
+		w.lock()
+		ne := 0
 		clientsLeft := 0
-		for _, t := range s.tasks {
+		for i := 0; i < s.n; i++ {
+			t := &s.tasks[i]
 			if t.done {
 				continue
 			}
@@ -314,24 +374,25 @@ func (w *World) RunScheduler() (RunResult, error) {
 				clientsLeft++
 			}
 			if t.parked && grantable(t.want, t.wantW) {
-				elig = append(elig, t)
+				elig[ne] = t
+				ne++
 			}
 		}
-		stopped := len(w.Stopped) > 0
-		w.mu.Unlock()
-		res := RunResult{Steps: s.steps, Advances: s.advances, SimTime: s.simTime, PickHash: s.pickHash, Tasks: len(s.tasks)}
+		stopped := w.nStopped > 0
+		w.unlock()
+		res := RunResult{Steps: s.steps, Advances: s.advances, SimTime: s.simTime, PickHash: s.pickHash, Tasks: s.n}
 		if clientsLeft == 0 {
 			res.WaitFor = w.waitFor() // tasks that outlive the clients (e.g. after Close): a leak for the harness to judge
 			return res, nil
 		}
 		if stopped {
 			res.WaitFor = w.waitFor()
-			return res, nil // the harness looks at w.Stopped
+			return res, nil // the harness looks at the stopped messages
 		}
 		canAdvance := s.cfg.AdvanceWeight > 0 && s.cfg.Interval > 0 && s.advances < s.cfg.MaxAdvances
 		total := 0
-		for _, t := range elig {
-			total += s.cfg.Weights[t.class]
+		for i := 0; i < ne; i++ {
+			total += s.cfg.Weights[elig[i].class]
 		}
 		if canAdvance {
 			total += s.cfg.AdvanceWeight
@@ -346,10 +407,10 @@ func (w *World) RunScheduler() (RunResult, error) {
 		}
 		v := w.Tape.Intn(total, "sched")
 		var pick *task
-		for _, t := range elig {
-			wgt := s.cfg.Weights[t.class]
+		for i := 0; i < ne; i++ {
+			wgt := s.cfg.Weights[elig[i].class]
 			if v < wgt {
-				pick = t
+				pick = elig[i]
 				break
 			}
 			v -= wgt
@@ -363,14 +424,14 @@ func (w *World) RunScheduler() (RunResult, error) {
 			time.Sleep(s.cfg.Interval)
 			continue
 		}
-		w.mu.Lock()
+		w.lock()
 		if pick.want != nil {
 			grant(pick.want, pick.wantW)
 		}
 		pick.parked = false
 		s.pickHash = (s.pickHash ^ uint64(pick.id)) * 1099511628211
 		s.pickHash = (s.pickHash ^ hashStr(pick.kind)) * 1099511628211
-		w.mu.Unlock()
+		w.unlock()
 		pick.resume <- struct{}{}
 	}
 }
@@ -383,11 +444,14 @@ func hashStr(s string) uint64 {
 	return h
 }
 
+//go:norace
 func (w *World) waitFor() []string {
-	w.mu.Lock()
-	defer w.mu.Unlock()
+	w.lock()
+	defer w.unlock()
 	var out []string
-	for _, t := range w.sched.tasks {
+	s := w.sched
+	for i := 0; i < s.n; i++ {
+		t := &s.tasks[i]
 		if t.done {
 			continue
 		}
@@ -404,25 +468,32 @@ func (w *World) waitFor() []string {
 }
 
 // KillTasks tears the run down: every parked task is released with a kill
-// sentinel panic; disk operations fail from now on. Tasks blocked natively in
-// the code under test stay blocked (the bubble then ends with a deadlock panic
-// that the harness recovers).
+// sentinel panic. Tasks blocked natively in the code under test stay blocked
+// (the bubble then ends with a deadlock panic that the harness recovers).
+//
+//go:norace
 func (w *World) KillTasks() {
 	if w.sched == nil {
 		return
 	}
-	w.mu.Lock()
-	w.sched.killed = true
-	var parked []*task
-	for _, t := range w.sched.tasks {
+	raceDisable()
+	defer raceEnable()
+	w.lock()
+	s := w.sched
+	s.killed = true
+	var parked [maxTasks]*task
+	np := 0
+	for i := 0; i < s.n; i++ {
+		t := &s.tasks[i]
 		if !t.done && t.parked {
 			t.killed = true
 			t.parked = false
-			parked = append(parked, t)
+			parked[np] = t
+			np++
 		}
 	}
-	w.mu.Unlock()
-	for _, t := range parked {
-		close(t.resume)
+	w.unlock()
+	for i := 0; i < np; i++ {
+		close(parked[i].resume)
 	}
 }
